@@ -484,6 +484,42 @@ def run_j6(chk, P):
                 sorted(set(want.values()) - set(vals)), sorted(v for v in vals if vals.count(v) > 1 or v not in want.values())))
 
 
+def run_j2(chk, P):
+    """asm side: a store whose address is a job pointer (+ constant) may only hit offsetof(IMB_JOB, status)"""
+    from .. import asmtyped
+    r = chk.rule('J2', 'assembly stores through a job pointer (IMB_JOB* argument, or pointer loaded from a job_in_lane slot) only hit '
+                       'offsetof(IMB_JOB, status), with an IMB_STATUS value', floor=200)
+    T = asmtyped.Typed(P)
+    st = P.enum_types.get('IMB_STATUS', {})
+    vals = set(st.values())
+    n = 0
+    for name, res in sorted(T.results.items()):
+        for s_ in res['stores']:
+            cl = T.classify_store(name, s_)
+            if not cl:
+                continue
+            fld = None
+            if cl['what'] == 'arg' and cl.get('type') == 'IMB_JOB':
+                fld = cl.get('field') or ('+%s' % cl.get('off'))
+            elif cl['what'] == 'loaded' and cl.get('ptype') and 'IMB_JOB' in cl['ptype'] and cl.get('from_field') and 'job_in_lane' in cl['from_field']:
+                fa = T.field_at('IMB_JOB', s_['disp']) if s_['disp'] is not None else None
+                fld = fa[0] if fa else '+%s' % s_['disp']
+            if fld is None:
+                continue
+            n += 1
+            key = '%s@%#x' % (name, s_['a'] - res['entry'])
+            loc = res['lines'].get(s_['a'], T.rel[name])
+            if not r.check(fld == 'status', key, loc, '%s writes job field `%s` (%s, %d bytes): caller-owned part of the descriptor' % (
+                    name, fld, s_['kind'], s_['w'])):
+                continue
+            if s_['kind'] == 'or':
+                r.check(s_['imm'] in (st.get('IMB_STATUS_COMPLETED_CIPHER'), st.get('IMB_STATUS_COMPLETED_AUTH'), st.get('IMB_STATUS_COMPLETED')),
+                        key + ':val', loc, '%s ORs %s into job->status' % (name, s_['imm']))
+            elif s_['kind'] == 'mov' and s_['src'] is not None and s_['src'][0] == 'I' and s_['src'][1] == s_['src'][2]:
+                r.check(s_['src'][1] in vals, key + ':val', loc, '%s stores %d into job->status' % (name, s_['src'][1]))
+    chk.extra['asm_job_stores'] = n
+
+
 def run_j7(chk, P):
     """a handed-back job is never partial: shared with C05 (Q2/Q2b/Q4)"""
     from . import c05
@@ -511,4 +547,5 @@ def run(chk):
     run_j4(chk, P)
     shared.rule_errno_target(chk, P, 'J5')
     run_j7(chk, P)
+    run_j2(chk, P)
     run_j6(chk, P)
